@@ -138,8 +138,25 @@ def _native_ns():
     ns["canon_ipv6"] = lambda s: ns["is_ipv6"](s) and ns["ntop6"](ns["pton6"](s)) == s
     ns["f32enc"] = lambda x: struct.pack("!f", x)
     ns["f64enc"] = lambda x: struct.pack("!d", x)
-    ns["f32dec"] = lambda b: struct.unpack("!f", bytes(b))[0] if len(b) == 4 else None
-    ns["f64dec"] = lambda b: struct.unpack("!d", bytes(b))[0] if len(b) == 8 else None
+
+    class _NaN:
+        """spec-level equality is equality of the decoded VALUE as an uninterpreted function of the bytes: a NaN equals the
+        NaN decoded from the same bytes (python's nan != nan is a property of float comparison, not of the codec)"""
+        def __eq__(self, other):
+            return isinstance(other, _NaN) or (isinstance(other, float) and other != other)
+
+        def __ne__(self, other):
+            return not self.__eq__(other)
+
+    def _fdec(fmt, n):
+        def f(b):
+            if len(b) != n:
+                return None
+            v = struct.unpack(fmt, bytes(b))[0]
+            return _NaN() if v != v else v
+        return f
+    ns["f32dec"] = _fdec("!f", 4)
+    ns["f64dec"] = _fdec("!d", 8)
 
     def f32fits(x):
         try:
@@ -421,21 +438,35 @@ def main(jp):
     except NoReplay as e:
         print(json.dumps({"status": "no-replay", "detail": f"cannot concretise: {e}"}))
         return
+    print(json.dumps(_evaluate(job, env, ns), default=str))
+
+
+def _snap(v):
+    """pre-state value of old(e): containers are copied shallowly (their elements keep their identity)"""
+    if isinstance(v, list):
+        return list(v)
+    if isinstance(v, dict):
+        return dict(v)
+    if isinstance(v, (set, bytearray)):
+        return type(v)(v)
+    return v
+
+
+def _evaluate(job, env, ns):
     desc = {k: (repr(v) if not hasattr(v, "__dict__") else f"{type(v).__name__}({ {a: b for a, b in vars(v).items()} })")
             for k, v in env.items()}
     try:
         for rq in job["requires"]:
             code, _ = _compile(rq)
             if not eval(code, ns, dict(env)):
-                print(json.dumps({"status": "not-reproduced", "detail": f"precondition {rq!r} is false on the "
-                                  "concretised input (uninterpreted symbols were interpreted differently by the solver)",
-                                  "inputs": desc}))
-                return
+                return {"status": "not-reproduced", "pre_false": True, "detail": f"precondition {rq!r} is false on the "
+                        "concretised input (uninterpreted symbols were interpreted differently by the solver)",
+                        "inputs": desc}
         # pre-state values of old(...) and of the raises conditions
         compiled = []
         for label, s in job["ensures"]:
             code, olds = _compile(s)
-            compiled.append((label, s, code, [eval(o, ns, dict(env)) for o in olds]))
+            compiled.append((label, s, code, [_snap(eval(o, ns, dict(env))) for o in olds]))
         whens = []
         for exc, when, mode in job["raises"]:
             code, _ = _compile(when)
@@ -443,16 +474,21 @@ def main(jp):
         fn = _get_callable(job["name"], ns, env)
         args = [env[n] for n in job["params"]]
     except NoReplay as e:
-        print(json.dumps({"status": "no-replay", "detail": str(e)}))
-        return
+        return {"status": "no-replay", "detail": str(e)}
     except Exception as e:
-        print(json.dumps({"status": "no-replay", "detail": f"error preparing the replay: {e!r}", "inputs": desc}))
-        return
+        return {"status": "no-replay", "detail": f"error preparing the replay: {e!r}", "inputs": desc}
     raised = None
     result = None
     try:
         result = fn(*args)
     except BaseException as e:     # noqa
+        if type(e).__name__ == "_Timeout":
+            raise
+        if job.get("mode") == "crosscheck" and (isinstance(e, MemoryError) or
+                                                (isinstance(e, OverflowError) and "index-sized" in str(e))):
+            # the verifier treats sizes as mathematical integers and memory as unbounded (stated assumption): a sample that
+            # hits the machine's limits is outside what the proof speaks about
+            return {"status": "no-replay", "resource": True, "detail": f"machine limit reached: {e!r}"}
         raised = e
     out = {"inputs": desc}
     if raised is not None:
@@ -466,15 +502,13 @@ def main(jp):
                        f"contract's condition for it is false on this input")
         else:
             out.update(status="not-reproduced", detail="raises as the contract allows")
-        print(json.dumps(out, default=str))
-        return
+        return out
     out["returned"] = repr(result)[:300]
     must = [exc for exc, mode, w in whens if mode == "iff" and w]
     if must:
         out.update(status="reproduced", detail=f"the real function returns normally although the contract demands "
                    f"{must[0]} on this input")
-        print(json.dumps(out, default=str))
-        return
+        return out
     for label, s, code, olds in compiled:
         loc = dict(env)
         loc["result"] = result
@@ -483,15 +517,169 @@ def main(jp):
             ok = eval(code, ns, loc)
         except Exception as e:
             out.update(status="no-replay", detail=f"clause {label} cannot be evaluated natively: {e!r}")
-            print(json.dumps(out, default=str))
-            return
+            return out
         if not ok:
             out.update(status="reproduced", detail=f"postcondition {label!r} is false on the real result: {s}")
-            print(json.dumps(out, default=str))
-            return
+            return out
     out.update(status="not-reproduced", detail="the real function satisfies every clause on this input")
+    return out
+
+
+
+# ==================================================================================================
+# CPython cross-check of PROVED contracts: random inputs, the real function, the contract evaluated natively
+# ==================================================================================================
+INT_POOL = [0, 1, 2, 3, 4, 5, 7, 8, 9, 12, 16, 19, 20, 21, 24, 32, 63, 64, 127, 128, 255, 256, 257, 263, 264, 280, 1024, 65535,
+            65536, 2 ** 24 - 1, 2 ** 24, 2 ** 31 - 1, 2 ** 31, 2 ** 32 - 1, 2 ** 32, 2 ** 32 + 1, 2 ** 63 - 1, 2 ** 63,
+            2 ** 64 - 1, 2 ** 64, -1, -2, -128, -2 ** 31, -2 ** 31 - 1, -2 ** 63, -2 ** 63 - 1, 10415, 2208988800, 4294967295 + 2208988800]
+FLOAT_POOL = [0.0, 1.0, -1.0, 0.5, 1e10, -1e10, 3.4e38, 3.5e38, 1e308, float("inf"), float("-inf"), 1.5e-45, 2.0 ** 24 + 1]
+LEN_POOL = [0, 0, 1, 2, 3, 4, 4, 5, 6, 7, 8, 8, 9, 12, 16, 18, 20, 24, 28]
+
+
+def _rand_build(kind, rnd, ns, depth=0):
+    """a random native value of a contract kind (cross-check); NoReplay for kinds without a native constructor"""
+    import io
+    import datetime
+    if kind.startswith("Opt["):
+        if rnd.random() < 0.25:
+            return None
+        return _rand_build(kind[4:-1], rnd, ns, depth)
+    if kind == "int":
+        r = rnd.random()
+        if r < 0.7:
+            return rnd.choice(INT_POOL)
+        if r < 0.85:
+            return rnd.randrange(0, 2 ** 32)
+        return rnd.randrange(-2 ** 64, 2 ** 65)
+    if kind == "bool":
+        return rnd.random() < 0.5
+    if kind == "bytes":
+        n = rnd.choice(LEN_POOL)
+        r = rnd.random()
+        if r < 0.2:
+            return bytes(n)
+        if r < 0.3:
+            return b"\xff" * n
+        return bytes(rnd.randrange(256) for _ in range(n))
+    if kind == "str":
+        return rnd.choice(STR_POOL)
+    if kind == "float":
+        return rnd.choice(FLOAT_POOL)
+    if kind.startswith("List["):
+        if depth > 2:
+            return []
+        return [_rand_build(kind[5:-1], rnd, ns, depth + 1) for _ in range(rnd.choice([0, 0, 1, 2]))]
+    if kind == "Any" or kind.startswith(("Tuple[", "Dict[", "Seq[", "Set[", "Deque[", "Any:")):
+        raise NoReplay(f"no random constructor for kind {kind}")
+    if kind == "BytesIO":
+        o = io.BytesIO()
+        o.write(_rand_build("bytes", rnd, ns))      # write position at the end (model assumption: BytesIO is only appended to)
+        return o
+    if kind == "Lock":
+        import threading
+        return threading.Lock()
+    if kind == "datetime":
+        ts = rnd.choice([0, 1, -1, 2085978495, 2085978496, 2085978497, -2208988800, -2208988801, 4294967295, 1700000000,
+                         rnd.randrange(-2 ** 33, 2 ** 33)])
+        return datetime.datetime(1970, 1, 1) + datetime.timedelta(seconds=ts)
+    cls = ns.get(kind)
+    if not isinstance(cls, type):
+        raise NoReplay(f"no native class for kind {kind}")
+    if depth > 3:
+        raise NoReplay("object nesting too deep")
+    o = object.__new__(cls)
+    from pyvc.spec import REG
+    fields = {}
+    for cn in [cls.__name__] + [b.__name__ for b in cls.__mro__[1:]]:
+        md = REG.models.get(cn)
+        if md:
+            for f, k in md.fields.items():
+                fields.setdefault(f, repr(k))
+            for f, k in md.dynamic.items():
+                if rnd.random() < 0.5:
+                    fields.setdefault(f, repr(k))
+    for f, k in fields.items():
+        if f.startswith("g_"):
+            continue                  # ghost fields have no native counterpart
+        setattr(o, f, _rand_build(k, rnd, ns, depth + 1))
+    return o
+
+
+def crosscheck_main(jp):
+    """job: {contracts: [contract jobs], macros, n, seed, specs} -> one JSON line {name: {ran, pre_false, no_replay, violated, first}}"""
+    global _native_ns_cache
+    import importlib
+    import random
+    import signal
+    job = json.load(open(jp))
+    for m in job.get("specs", []):
+        try:
+            importlib.import_module("specs." + m)
+        except Exception:
+            pass
+    ns = _native_ns()
+    _native_ns_cache = ns
+    _install_macros(ns, job["macros"])
+    out = {}
+
+    class _Timeout(BaseException):
+        pass
+
+    def _alarm(*a):
+        raise _Timeout()
+    signal.signal(signal.SIGALRM, _alarm)
+    try:
+        import resource
+        resource.setrlimit(resource.RLIMIT_AS, (3 * 2 ** 30, 3 * 2 ** 30))     # a sample asking for gigabytes fails fast
+    except Exception:
+        pass
+    for cj in job["contracts"]:
+        cj["mode"] = "crosscheck"
+        rnd = random.Random(f"{job['seed']}:{cj['name']}")
+        st = {"ran": 0, "pre_false": 0, "no_replay": 0, "violated": 0, "first": None, "why_no_replay": None}
+        for _ in range(job["n"]):
+            try:
+                env = {n: _rand_build(k, rnd, ns) for n, k in cj["params"].items()}
+                for n, k in cj.get("ghost", {}).items():
+                    env[n] = _rand_build(k, rnd, ns)
+            except NoReplay as e:
+                st["no_replay"] += 1
+                st["why_no_replay"] = str(e)
+                break                 # the kind has no constructor: every sample would fail the same way
+            except Exception as e:
+                st["no_replay"] += 1
+                st["why_no_replay"] = repr(e)
+                continue
+            signal.alarm(3)
+            try:
+                r = _evaluate(cj, env, ns)
+            except _Timeout:
+                st["timeouts"] = st.get("timeouts", 0) + 1
+                r = {"status": "no-replay", "detail": "the real function did not return within 3 s (resource limit of the cross-check)"}
+            except Exception as e:
+                r = {"status": "no-replay", "detail": repr(e)}
+            finally:
+                signal.alarm(0)
+            if r.get("status") == "reproduced":
+                st["violated"] += 1
+                if st["first"] is None:
+                    st["first"] = {"detail": r.get("detail"), "inputs": r.get("inputs"), "raised": r.get("raised"),
+                                   "returned": r.get("returned")}
+            elif r.get("resource"):
+                st["resource"] = st.get("resource", 0) + 1
+            elif r.get("status") == "no-replay":
+                st["no_replay"] += 1
+                st["why_no_replay"] = r.get("detail")
+            elif r.get("pre_false"):
+                st["pre_false"] += 1
+            else:
+                st["ran"] += 1
+        out[cj["name"]] = st
     print(json.dumps(out, default=str))
 
 
 if __name__ == "__main__":
-    main(sys.argv[1])
+    if len(sys.argv) > 2 and sys.argv[1] == "--crosscheck":
+        crosscheck_main(sys.argv[2])
+    else:
+        main(sys.argv[1])
